@@ -23,6 +23,8 @@ type C07Case struct {
 	Powers     []int64      `json:"powers"`      // validator pool (index = validator id)
 	TrustLevel int          `json:"trust_level"` // index into trustLevels
 	Period     int64        `json:"period_s"`    // trusting period, seconds
+	UpgradeAt  int          `json:"upgrade_at"`  // before attempt #UpgradeAt the client is upgraded to revision 2 (-1: never)
+	UpgradeH   int64        `json:"upgrade_h"`   // height of the revision-2 consensus state installed by the upgrade
 	Attempts   []C07Attempt `json:"attempts"`
 }
 
@@ -69,6 +71,11 @@ func genC07(t *rapid.T) C07Case {
 		for i := 0; i < n; i++ {
 			c.Powers = append(c.Powers, rapid.Int64Range(1, 10).Draw(t, "p"))
 		}
+	}
+	c.UpgradeAt = -1
+	if rapid.IntRange(0, 3).Draw(t, "upg") == 3 {
+		c.UpgradeAt = rapid.IntRange(0, 3).Draw(t, "upgAt")
+		c.UpgradeH = rapid.SampledFrom([]int64{1, 5, 11, 30}).Draw(t, "upgH")
 	}
 	na := rapid.IntRange(1, 6).Draw(t, "nattempts")
 	for i := 0; i < na; i++ {
@@ -240,25 +247,54 @@ func checkC07(c C07Case, col *Collector) outcome {
 	if err := k.CreateClient(ctx, name, cs, cons0); err != nil {
 		return v("setup", "create client failed: %v", err)
 	}
-	stored := map[int64]*c07State{h0: {time: c07Base, nextIDs: ids, nextPows: pows}}
-	latest := h0
+	type rh struct {
+		rev uint64
+		h   int64
+	}
+	less := func(a, b rh) bool { return a.rev < b.rev || (a.rev == b.rev && a.h < b.h) }
+	stored := map[rh]*c07State{{1, h0}: {time: c07Base, nextIDs: ids, nextPows: pows}}
+	latest := rh{1, h0}
 	now := c07Base.Add(time.Second)
 	freshID := len(c.Powers) // ids of validators not in the pool, used for rotation
 
 	for ai, a := range c.Attempts {
+		if ai == c.UpgradeAt && latest.rev == 1 {
+			// governance upgrade to the next revision: new chain id, new latest height, one consensus state
+			uh := c.UpgradeH
+			if uh < 1 {
+				uh = 1
+			}
+			lt := stored[latest]
+			ucs := ibctm.NewClientState("lcchain-2", tl, period, period*2, c07Drift, clienttypes.NewHeight(2, uint64(uh)),
+				commitmenttypes.GetSDKSpecs(), world.Prefix, 0)
+			nset, _ := c07Set(lt.nextIDs, lt.nextPows)
+			ucons := &ibctm.ConsensusState{Timestamp: lt.time.Add(time.Second), Root: commitmenttypes.NewMerkleRoot([]byte("root-upgrade")), NextValidatorsHash: nset.Hash()}
+			if err := k.UpgradeClient(ctx.WithBlockTime(now), name, ucs, ucons); err != nil {
+				return v("setup", "upgrade failed: %v", err)
+			}
+			latest = rh{2, uh}
+			stored[latest] = &c07State{time: lt.time.Add(time.Second), nextIDs: lt.nextIDs, nextPows: lt.nextPows}
+			col.Label("client-upgraded-to-next-revision")
+		}
 		// stored heights in ascending order
-		var hs []int64
+		var hs []rh
 		for h := range stored {
 			hs = append(hs, h)
 		}
-		sortInt64(hs)
+		for i := 1; i < len(hs); i++ {
+			for j := i; j > 0 && less(hs[j], hs[j-1]); j-- {
+				hs[j], hs[j-1] = hs[j-1], hs[j]
+			}
+		}
 		var th int64
+		trev := latest.rev
 		var ts *c07State
 		if a.Trusted < 0 {
-			th = latest + 100 // not stored
+			th = latest.h + 100 // not stored
 		} else {
-			th = hs[mod(a.Trusted, len(hs))]
-			ts = stored[th]
+			key := hs[mod(a.Trusted, len(hs))]
+			th, trev = key.h, key.rev
+			ts = stored[key]
 		}
 		newH := th + a.DH
 		if newH < 1 {
@@ -270,6 +306,7 @@ func checkC07(c C07Case, col *Collector) outcome {
 			baseT = ts.time
 		}
 		latestT := stored[latest].time
+
 		// the block time ("now")
 		switch a.NowKind {
 		case 0:
@@ -347,19 +384,26 @@ func checkC07(c C07Case, col *Collector) outcome {
 			supplied, _ = c07Set(tIDs, p2)
 		}
 		signIdx := pickSigners(newSet, trustedSet, tl, a.SignKind, a.SignArg)
-		hdrChain := c07ChainID
-		hdrRev := uint64(1)
+		hdrRev := trev
 		if a.Revision == 1 {
-			hdrChain, hdrRev = "lcchain-2", 2
+			hdrRev = 3 - trev // the other revision
 		}
+		clientChain := fmt.Sprintf("lcchain-%d", hdrRev) // the client's chain id with the header's revision
+		hdrChain := clientChain
 		if a.ChainID == 1 {
 			hdrChain = "otherchain-1"
 		}
 		appHash := []byte(fmt.Sprintf("app-hash-%d-%d", newH, ai))
 		hdr := world.MakeTMHeader(hdrChain, newH, hdrTime, appHash, newSet, nextSet, allSigners(), signIdx)
-		trustedHeight := clienttypes.NewHeight(1, uint64(th))
+		trustedHeight := clienttypes.NewHeight(trev, uint64(th))
 		if a.Revision == 2 {
-			trustedHeight = clienttypes.NewHeight(2, uint64(th))
+			if stored[rh{3 - trev, th}] != nil {
+				col.Excluded["same-numeric-height-stored-in-both-revisions"]++
+				continue
+			}
+			trev = 3 - trev
+			trustedHeight = clienttypes.NewHeight(trev, uint64(th))
+			ts = nil
 		}
 		hdr.TrustedHeight = trustedHeight
 		sp, err := supplied.ToProto()
@@ -399,12 +443,13 @@ func checkC07(c C07Case, col *Collector) outcome {
 			}
 		}
 		adjacent := newH == th+1
+		_ = trev
 		switch {
-		case ts == nil || a.Revision == 2:
+		case ts == nil:
 			reject("trusted-height-not-stored")
 		case !bytes.Equal(supplied.Hash(), trustedSet.Hash()):
 			reject("trusted-validators-mismatch")
-		case hdrRev != 1:
+		case hdrRev != trev:
 			reject("revision-mismatch")
 		case newH <= th:
 			reject("height-not-newer")
@@ -415,7 +460,7 @@ func checkC07(c C07Case, col *Collector) outcome {
 				reject("client-expired")
 			case !now.Before(ts.time.Add(period)):
 				reject("trusted-state-expired")
-			case hdrChain != c07ChainID:
+			case hdrChain != clientChain:
 				reject("chain-id")
 			case !hdrTime.After(ts.time):
 				reject("time-not-after-trusted")
@@ -470,7 +515,7 @@ func checkC07(c C07Case, col *Collector) outcome {
 		write()
 		// effects of acceptance
 		rctx := ctx.WithBlockTime(now)
-		got, ok := k.GetClientConsensusState(rctx, name, clienttypes.NewHeight(1, uint64(newH)))
+		got, ok := k.GetClientConsensusState(rctx, name, clienttypes.NewHeight(hdrRev, uint64(newH)))
 		if !ok {
 			return v("consensus-state-missing", "attempt %d accepted but no consensus state at height %d", ai, newH)
 		}
@@ -479,24 +524,30 @@ func checkC07(c C07Case, col *Collector) outcome {
 			return v("consensus-state-wrong", "attempt %d: stored consensus state %v does not match the header (time %v, app hash %q)", ai, tmc, hdrTime, appHash)
 		}
 		csNow, _ := k.GetClientState(rctx, name)
-		wantLatest := maxI64(latest, newH)
-		if csNow.GetLatestHeight().GetRevisionHeight() != uint64(wantLatest) {
-			return v("latest-height-wrong", "attempt %d: latest height %s, want %d (was %d, header %d)", ai, csNow.GetLatestHeight(), wantLatest, latest, newH)
+		wantLatest := latest
+		if less(latest, rh{hdrRev, newH}) {
+			wantLatest = rh{hdrRev, newH}
 		}
-		if _, ok := ibctm.GetProcessedTime(k.ClientStore(rctx, name), clienttypes.NewHeight(1, uint64(newH))); !ok {
+		if csNow.GetLatestHeight().GetRevisionHeight() != uint64(wantLatest.h) || csNow.GetLatestHeight().GetRevisionNumber() != wantLatest.rev {
+			return v("latest-height-wrong", "attempt %d: latest height %s, want %d-%d (was %d-%d, header %d-%d)", ai, csNow.GetLatestHeight(), wantLatest.rev, wantLatest.h, latest.rev, latest.h, hdrRev, newH)
+		}
+		if hdrRev != latest.rev {
+			col.Label("accepted-update-in-previous-revision")
+		}
+		if _, ok := ibctm.GetProcessedTime(k.ClientStore(rctx, name), clienttypes.NewHeight(hdrRev, uint64(newH))); !ok {
 			return v("processed-time-missing", "attempt %d: no processed-time metadata for height %d", ai, newH)
 		}
 		latest = wantLatest
-		stored[newH] = &c07State{time: hdrTime, nextIDs: nextIDs, nextPows: nextPows}
+		stored[rh{hdrRev, newH}] = &c07State{time: hdrTime, nextIDs: nextIDs, nextPows: nextPows}
 		// states the client pruned are no longer available as trusted heights
 		for h := range stored {
-			if !k.HasClientConsensusState(rctx, name, clienttypes.NewHeight(1, uint64(h))) {
+			if !k.HasClientConsensusState(rctx, name, clienttypes.NewHeight(h.rev, uint64(h.h))) {
 				delete(stored, h)
 				col.Label("pruned-state")
 			}
 		}
 		if _, ok := stored[latest]; !ok {
-			return v("latest-state-pruned", "the consensus state of the latest height %d is gone", latest)
+			return v("latest-state-pruned", "the consensus state of the latest height %d-%d is gone", latest.rev, latest.h)
 		}
 		// non-trivial: decided within one validator's power or 1ns of a time bound
 		if a.SignKind >= 2 && a.SignKind <= 5 || a.TimeKind == 3 || a.TimeKind == 4 || a.NowKind == 1 || a.NowKind == 5 {
